@@ -60,7 +60,8 @@ def r1(chk, ctx):
     chk.ob("C15.R1", "async_child <=> resource == 'startExecution'", ac == ["True if resource == 'startExecution' else False"] or ac == ["resource == 'startExecution'"], str(ac),
            key="%s | async_child definition %s" % (sx.qname, ac), where=sx.where(), message="only the plain form returns at once with the child's ARN")
     pubs = [c for c in body_nodes(sx) if isinstance(c, ast.Call) and last(callname(c)) == "publish"]
-    ok = len(pubs) == 1 and norm(kwarg(pubs[0], "use_shared_queue")) == "async_child"
+    usq = kwarg(pubs[0], "use_shared_queue") if len(pubs) == 1 else None
+    ok = usq is not None and norm(usq) == "async_child"
     chk.ob("C15.R1", "child start is published to the shared queue iff asynchronous", ok, "", key="%s | child start queue selection" % sx.qname, where=sx.where(),
            message="a synchronous child must run on the instance that holds the parent's pending request")
     # what happens per arm
@@ -190,6 +191,13 @@ def r4(chk, ctx):
     txt = [norm(s) for s in ast.walk(h.node) if isinstance(s, ast.stmt)]
     ok = any(t.startswith("if request_has_waitForTaskToken and error_type == None") for t in txt)
     chk.ob("C15.R4", "the worker's own (non-error) reply does not complete a token task", ok, "", key="%s | token task completes only through the callback" % h.qname, where=h.where(), message="")
+    guard = [i for i in body_nodes(h) if isinstance(i, ast.If) and norm(i.test).startswith("request_has_waitForTaskToken and error_type == None")]
+    eds = [x for x in name_defs(h, "error_type") if isinstance(x, ast.Assign) and guard and x.lineno < guard[0].lineno]
+    vals = sorted(norm(x.value) for x in eds)
+    ok = vals == ["None", "result.get('errorType')"]
+    chk.ob("C15.R4", "before that guard error_type is None unless the reply is an object carrying errorType", ok, str(vals),
+           key="%s | error_type definitions before the plain-reply guard: %s" % (h.qname, vals), where=h.where(),
+           message="a non-object reply (\"accepted\", true, 202, [..]) must also count as 'no error': otherwise it completes the token task and the real SendTaskSuccess is orphaned")
 
 
 def r6(chk, ctx):
